@@ -1,0 +1,45 @@
+//go:build verif
+
+package transport_controller
+
+import (
+	"io"
+
+	"github.com/aperturerobotics/bifrost/link"
+	"github.com/aperturerobotics/bifrost/peer"
+)
+
+// VerifStreamEstablishMaxPacketSize exposes the header size limit.
+func VerifStreamEstablishMaxPacketSize() uint64 { return streamEstablishMaxPacketSize }
+
+// VerifReadStreamEstablishHeader exposes readStreamEstablishHeader.
+func VerifReadStreamEstablishHeader(r io.Reader) (*StreamEstablish, error) {
+	return readStreamEstablishHeader(r)
+}
+
+// VerifWriteStreamEstablishHeader exposes writeStreamEstablishHeader.
+func VerifWriteStreamEstablishHeader(w io.Writer, msg *StreamEstablish) (int, error) {
+	return writeStreamEstablishHeader(w, msg)
+}
+
+// VerifMarshalStreamEstablishHeader exposes marshalStreamEstablishHeader.
+func VerifMarshalStreamEstablishHeader(msg *StreamEstablish) []byte {
+	return marshalStreamEstablishHeader(msg)
+}
+
+// VerifLinkSnapshot returns copies of the two link tables.
+func (c *Controller) VerifLinkSnapshot() (byUUID map[uint64]link.Link, byPeer map[peer.ID][]link.Link) {
+	byUUID = make(map[uint64]link.Link)
+	byPeer = make(map[peer.ID][]link.Link)
+	c.bcast.HoldLock(func(broadcast func(), getWaitCh func() <-chan struct{}) {
+		for k, el := range c.links {
+			byUUID[k] = el.lnk
+		}
+		for k, els := range c.linksByPeerID {
+			for _, el := range els {
+				byPeer[k] = append(byPeer[k], el.lnk)
+			}
+		}
+	})
+	return byUUID, byPeer
+}
